@@ -204,11 +204,13 @@ pub struct Mach {
 }
 
 pub const HELPERS: &str = include_str!("helpers.pl");
+pub const C31ATT: &str = include_str!("c31att.pl");
 
 impl Mach {
     pub fn new() -> Mach {
         let mut m = Box::new(MachineBuilder::default().build());
         vh::set_machine_rng(&mut m, 0x5EED);
+        m.load_module_string("c31att", C31ATT.to_string());
         m.load_module_string("verif_helpers", HELPERS.to_string());
         Mach {
             m: Some(m),
@@ -225,6 +227,7 @@ impl Mach {
         let streams = scryer_prolog::StreamConfig::in_memory().with_user_input(cfg);
         let mut m = Box::new(MachineBuilder::default().with_streams(streams).build());
         vh::set_machine_rng(&mut m, 0x5EED);
+        m.load_module_string("c31att", C31ATT.to_string());
         m.load_module_string("verif_helpers", HELPERS.to_string());
         (
             Mach {
@@ -249,6 +252,7 @@ impl Mach {
         let streams = scryer_prolog::StreamConfig::in_memory().with_user_input(cfg);
         let mut m = Box::new(MachineBuilder::default().with_streams(streams).build());
         vh::set_machine_rng(&mut m, 0x5EED);
+        m.load_module_string("c31att", C31ATT.to_string());
         m.load_module_string("verif_helpers", HELPERS.to_string());
         Mach {
             m: Some(m),
